@@ -143,6 +143,17 @@ func checkC03(c *Ctx, p *Prog, r *Result) {
 		return fn
 	}
 
+	// (0) the HMAC that binds credential and voucher is never an unnoticed failed computation
+	{
+		var roots []*ssa.Function
+		for _, n := range []string{"fdo.DI", "fdo.TO2"} {
+			if fn := get(n); fn != nil {
+				roots = append(roots, fn)
+			}
+		}
+		fallibleHashRule(p, r, "C03.hmac-error-checked", roots, 2)
+	}
+
 	// (1) atomicity on the owner / manufacturer side
 	if root := get("fdo.TO2Server.Respond"); root != nil {
 		f := NewFlow(p, rs, []*ssa.Function{root}, nil)
